@@ -13,7 +13,11 @@ Theorem C12_resolve_order : forall rs E d name lg,
   | Some t, _, _ => (ROk t, lg)
   | None, Some v, _ => (ROk v, lg)
   | None, None, Some c => rs E c true d lg
-  | None, None, None => (ROk (VErr (EBinding name)), lg)
+  | None, None, None =>
+      match e_now E with
+      | None => (RErr (EBinding name), lg)
+      | Some _ => (ROk (VErr (EBinding name)), lg)
+      end
   end.
 Proof. exact resolve_order. Qed.
 Print Assumptions C12_resolve_order.
